@@ -19,6 +19,7 @@ import json
 import multiprocessing as mp
 import os
 import re
+import shutil
 import threading
 import zlib
 from concurrent.futures import ThreadPoolExecutor
@@ -84,7 +85,9 @@ def observe(text, want_validate):
         o["toks_raised"] = type(ex).__name__
     groups = hs.get_all_groups()
     gidx = {id(g): n for n, g in enumerate(groups)}
-    o["root"] = bool(groups) and groups[0] is hs and tuple(hs.span) == (0, len(text))
+    o["root"] = bool(groups) and groups[0] is hs and tuple(hs.span) == (0, len(text)) \
+        and hs.get_original_hed_string() == text \
+        and all(g.get_original_hed_string() == text[g.span[0]:g.span[1]] for g in groups[1:])
     o["groups"] = [[_i(g.span[0]), _i(g.span[1]), gidx.get(id(g._parent), -1)] for g in groups[1:]]
     tags = hs.get_all_tags()
     o["tags"] = [[_i(t.span[0]), _i(t.span[1]), gidx.get(id(t._parent), -1)] for t in tags]
@@ -484,8 +487,11 @@ _LOCK = threading.Lock()
 
 def _tlc(ctx, module, cfg, label, expect_ok=True, **kw):
     """ctx.tlc for use from threads: the TLC process runs unlocked, the bookkeeping under a lock."""
-    kw.setdefault("workdir", ctx.work)
-    r = tlc.run(module, cfg, **kw)
+    with _LOCK:
+        _G["tlc_n"] = _G.get("tlc_n", 0) + 1
+        wd = os.path.join(ctx.work, "tlc_%d" % _G["tlc_n"])      # own metadir parent: parallel runs must not collide
+    r = tlc.run(module, cfg, workdir=wd, **kw)
+    shutil.rmtree(wd, ignore_errors=True)
     with _LOCK:
         ctx.states += r.distinct
         ctx.transitions += r.generated
@@ -538,7 +544,7 @@ def run(ctx):
 
     def sens(b):
         return b, _tlc(ctx, "MC_HedText", "MC_HedText_bug_%s.cfg" % b, "sensitivity: " + b, expect_ok=False,
-                       workers=2, timeout=300)
+                       workers=1, timeout=300)
     with ThreadPoolExecutor(4) as ex:
         res = list(ex.map(sens, sorted(sens_expect)))
     got = {}
@@ -617,8 +623,10 @@ def _run_bindings(ctx, pool, n, plen):
     ctx.exhaustive = True
     ctx.evaluations += total["n"] + total["conc"]
     ctx.traces += total["n"] + total["conc"]
-    for s in sorted(samples, key=lambda x: json.dumps(x, sort_keys=True))[:4]:
-        ctx.sample(s)
+    samples.sort(key=lambda x: json.dumps(x, sort_keys=True))
+    for b in ("A1", "A2"):
+        for s in [x for x in samples if x["binding"] == b][:2]:
+            ctx.sample(s)
     spell, _ = _vocab()
     ctx.note("A1_texts_replayed", total["n"])
     ctx.note("A2_concretised_texts_replayed", total["conc"])
@@ -645,30 +653,34 @@ def _run_bindings(ctx, pool, n, plen):
             ctx.nontrivial.add("B:" + "".join(rec["s"]))
         for clause in failed:
             rejected.append((idx, clause))
-    # what the declarative definition prescribes for the rejected cases (second TLC pass) -> replay files
-    rej_idx = sorted({i for i, _ in rejected})[:500]
+    # per failure class: count all, and fetch what the declarative definition prescribes (second TLC pass,
+    # goes into the replay file) for the smallest examples of each class
+    bykey = {}
+    for idx, clause in rejected:
+        text = origin[idx][1]
+        bykey.setdefault((_key(clause, text, None), clause), []).append(((len(text), text), idx))
+    for v in bykey.values():
+        v.sort()
+    rej_idx = sorted({idx for v in bykey.values() for _, idx in v[:3]})
     explained = {}
     if rej_idx:
         ev = _trace_validate(ctx, [recs[i] for i in rej_idx], "expected values of rejected cases",
                              cfg="Trace_HedText_explain.cfg")
         explained = dict(zip(rej_idx, ev))
-    for idx, clause in rejected:
-        if idx not in explained:
-            continue
+    for (key, clause), v in sorted(bykey.items()):
+        rank, idx = v[0]
         mode, text = origin[idx]
         bal, dtags, ftags, fgroups = explained[idx]
         exp = {"bal": bal, "dtags": dtags, "tags": ftags, "groups": fgroups, "print": None,
                "judged_by": "Trace_HedText on classes %r" % "".join(recs[idx]["s"])}
         o = observe(text, want_validate=True)
-        key = _key(clause, text, exp)
         sentence = "[binding %s] %s" % (mode, _sentence(clause, text, exp, o))
         rep = {"mode": "text", "text": text, "clause": clause, "binding": mode, "expected": exp}
         c = fails.get(key)
-        rank = (len(text), text)
         if c is None or rank < c[1]:
-            fails[key] = [1 + (c[0] if c else 0), rank, sentence, rep, clause]
+            fails[key] = [len(v) + (c[0] if c else 0), rank, sentence, rep, clause]
         else:
-            c[0] += 1
+            c[0] += len(v)
     for t, rec, _, raised, codes in obs[:400:133]:
         ctx.sample({"binding": "B", "text": ascii(t), "classes": "".join(rec["s"]), "observed_tags": rec["tags"],
                     "observed_groups": rec["groups"], "codes": codes})
@@ -683,6 +695,15 @@ def _run_bindings(ctx, pool, n, plen):
         ctx.note("blank_isspace_reading_disagreements", {"texts_with_other_white_space": len(wide), "disagree": len(dis),
                                                           "examples": [ascii(t) for t, _ in dis[:3]]})
 
+    # ---- totality on long texts (no oracle needed for "never raises"; too long for TLC's recursion)
+    for name, t in _long_texts():
+        o = observe(t, want_validate=False)
+        ctx.case("long:" + name)
+        if o.get("print_raised"):
+            ctx.extra.setdefault("long_text_print_raised", {})[name] = o["print_raised"]     # note only (recursion limit)
+        if o["raised"]:
+            fails.setdefault("never-raises", [0, (len(t), t), "HedString(<%s, %d characters>, schema) raised %s" % (
+                name, len(t), o["raised"]), {"mode": "long", "name": name, "clause": "never_raises"}, "never_raises"])[0] += 1
     # ---- verdicts
     drift = {}
     for key in sorted(fails):
@@ -698,11 +719,47 @@ def _run_bindings(ctx, pool, n, plen):
         print("SPEC-DRIFT C02: %s" % {k: v["count"] for k, v in drift.items()})
 
 
+def _long_texts():
+    return [("deep-nesting", "(" * 3000 + "Red" + ")" * 3000),
+            ("many-groups", ",".join(["(Red, Blue)"] * 3000)),
+            ("many-opens", "(" * 6000),
+            ("many-closes", ")" * 6000),
+            ("blanks-and-commas", " , " * 6000),
+            ("one-long-tag", "Item/" + "x/" * 6000),
+            ("odd-characters", "".join(ODD) * 150)]
+
+
+def selftest(ctx):
+    """Show that a corrupted expectation / a corrupted record is noticed by both bindings."""
+    import hed  # noqa: F401
+    text = "t ,( t/t ,(t) )"
+    o = observe(text, want_validate=False)
+    rec = trace_record(text, o)
+    bad = json.loads(json.dumps(rec))
+    bad["tags"][1][1] += 1                      # one span end off by one
+    bad2 = json.loads(json.dumps(rec))
+    bad2["groups"][1][2] = 0                    # inner group re-parented to the top level
+    v = _trace_validate(ctx, [rec, bad, bad2], "selftest")
+    ok = v[0][1] == [] and "tag_spans" in v[1][1] and "nesting" in v[2][1]
+    ev = _trace_validate(ctx, [rec], "selftest expected", cfg="Trace_HedText_explain.cfg")[0]
+    exp = {"bal": ev[0], "dtags": ev[1], "tags": ev[2], "groups": ev[3], "print": None}
+    ok = ok and compare(text, exp, o) == []
+    exp["groups"][0][1] -= 1
+    ok = ok and "group_spans" in compare(text, exp, o)
+    print("SELFTEST C02: %s  (trace verdicts %s)" % ("ok" if ok else "FAILED", v))
+    shutil.rmtree(ctx.work, ignore_errors=True)      # no evidence file is written by the self-test
+    return 0 if ok else 2
+
+
 # --------------------------------------------------------------------------------------
 # replay of one recorded case (no TLC)
 # --------------------------------------------------------------------------------------
 def replay(obj):
     import hed  # noqa: F401
+    if obj.get("mode") == "long":
+        t = dict(_long_texts())[obj["name"]]
+        o = observe(t, want_validate=False)
+        return (not o["raised"]), "HedString(<%s, %d characters>) %s" % (obj["name"], len(t), o["raised"] or "constructed")
     text, clause, exp = obj["text"], obj["clause"], obj.get("expected")
     o = observe(text, want_validate=True)
     failed = compare(text, exp, o)
